@@ -703,6 +703,9 @@ func (e *Exec) appendOp(s *SliceV, t Value, c *ssa.CallCommon) Value {
 	tb := e.tb
 	var src []Value
 	var elemT types.Type
+	if r := e.appendSym(s, t); r != nil {
+		return r
+	}
 	switch q := t.(type) {
 	case *SliceV:
 		n := e.concLen(q.len, "append source length")
@@ -758,22 +761,42 @@ func (e *Exec) appendOp(s *SliceV, t Value, c *ssa.CallCommon) Value {
 
 func (e *Exec) copyOp(dst *SliceV, srcV Value) Value {
 	tb := e.tb
-	var slen *Term
-	var get func(i int) Value
+	var slen, soff *Term
+	var sarr *Arr
 	switch q := srcV.(type) {
 	case *SliceV:
-		slen = q.len
-		get = func(i int) Value { return e.arrGet(q.arr, tb.Add(q.off, e.c64(int64(i)))) }
-		if q.arr != nil {
-			e.noteRead(q.arr.obj)
-		}
+		slen, soff, sarr = q.len, q.off, q.arr
 	case *StrV:
-		slen = q.len
-		get = func(i int) Value { return e.arrGet(q.arr, tb.Add(q.off, e.c64(int64(i)))) }
+		slen, soff, sarr = q.len, q.off, q.arr
 	default:
 		panic(e.internal(fmt.Sprintf("copy from %T", srcV)))
 	}
+	if sarr != nil {
+		e.noteRead(sarr.obj)
+	}
 	n := tb.Ite(tb.Ult(slen, dst.len), slen, dst.len)
+	if !n.IsConst() && dst.arr != nil && sarr != nil && dst.off.IsConst() && soff.IsConst() && scalarCells(dst.arr) && scalarCells(sarr) {
+		// symbolic number of elements over concrete backing arrays: element-wise if-then-else
+		do, so := int(dst.off.val), int(soff.val)
+		max := len(dst.arr.cells) - do
+		if m := len(sarr.cells) - so; m < max {
+			max = m
+		}
+		if ub := upperBound(n); ub < uint64(max) {
+			max = int(ub)
+		}
+		vals := make([]*Term, max)
+		for i := 0; i < max; i++ {
+			vals[i] = sarr.cells[so+i].v.(*Term)
+		}
+		e.noteWrite(dst.arr.obj, "copy")
+		for i := 0; i < max; i++ {
+			c := dst.arr.cells[do+i]
+			e.setLeaf(c, tb.Ite(tb.Ult(e.c64(int64(i)), n), vals[i], c.v.(*Term)))
+		}
+		return n
+	}
+	get := func(i int) Value { return e.arrGet(sarr, tb.Add(soff, e.c64(int64(i)))) }
 	cn := e.concLen(n, "copy length")
 	// read all first (overlap semantics of memmove)
 	vals := make([]Value, cn)
@@ -784,6 +807,68 @@ func (e *Exec) copyOp(dst *SliceV, srcV Value) Value {
 		e.arrSetTrail(dst.arr, tb.Add(dst.off, e.c64(int64(i))), vals[i])
 	}
 	return e.c64(int64(cn))
+}
+
+// appendSym handles append(s, t...) when len(t) is symbolic over a concrete backing
+// array and s has concrete offset and length: in place (if it fits) by element-wise
+// if-then-else, otherwise into a fresh array sized for the largest possible source.
+func (e *Exec) appendSym(s *SliceV, t Value) Value {
+	tb := e.tb
+	var tlen, toff *Term
+	var tarr *Arr
+	switch q := t.(type) {
+	case *SliceV:
+		tlen, toff, tarr = q.len, q.off, q.arr
+	case *StrV:
+		tlen, toff, tarr = q.len, q.off, q.arr
+	}
+	if tlen == nil || tlen.IsConst() || tarr == nil || !toff.IsConst() || !scalarCells(tarr) {
+		return nil
+	}
+	if !s.len.IsConst() || !s.off.IsConst() || (s.arr != nil && !scalarCells(s.arr)) {
+		return nil
+	}
+	e.noteRead(tarr.obj)
+	so := int(toff.val)
+	max := len(tarr.cells) - so
+	if ub := upperBound(tlen); ub < uint64(max) {
+		max = int(ub)
+	}
+	srcT := make([]*Term, max)
+	for i := range srcT {
+		srcT[i] = tarr.cells[so+i].v.(*Term)
+	}
+	newLen := tb.Add(s.len, tlen)
+	fits := tb.Ule(newLen, s.cap)
+	base := int(s.off.val) + int(s.len.val)
+	if s.arr != nil && e.branch(fits, "append-fits") {
+		e.noteWrite(s.arr.obj, "append")
+		for i := 0; i < max && base+i < len(s.arr.cells); i++ {
+			c := s.arr.cells[base+i]
+			e.setLeaf(c, tb.Ite(tb.Ult(e.c64(int64(i)), tlen), srcT[i], c.v.(*Term)))
+		}
+		return &SliceV{arr: s.arr, off: s.off, len: newLen, cap: s.cap}
+	}
+	oldN := int(s.len.val)
+	zero := tb.Const(srcT0w(srcT, tarr), 0)
+	a := e.newArr(tarr.elem, oldN+max, e.newObj("alloc", "append@"+e.site()), func(i int) Value {
+		if i < oldN {
+			return e.arrGet(s.arr, tb.Add(s.off, e.c64(int64(i))))
+		}
+		return tb.Ite(tb.Ult(e.c64(int64(i-oldN)), tlen), srcT[i-oldN], zero)
+	})
+	if s.arr != nil {
+		e.noteRead(s.arr.obj)
+	}
+	return &SliceV{arr: a, off: e.c64(0), len: newLen, cap: newLen}
+}
+
+func srcT0w(ts []*Term, a *Arr) int {
+	if len(ts) > 0 {
+		return ts[0].w
+	}
+	w, _, _ := intWidth(a.elem)
+	return w
 }
 
 // windowBytes returns the byte terms of arr from off to its end.
